@@ -146,7 +146,7 @@ func allowIP(ipFilter *ipfilter.IPFilter, ip string) bool {
 
 func (mi *muxInstance) getRouteFromCache(req *httpprot.Request) *route {
 	if mi.cache != nil {
-		key := stringtool.Cat(req.Host(), req.Method(), req.Path())
+		key := stringtool.Cat(req.Host(), " ", req.Method(), " ", req.Path())
 		if value, ok := mi.cache.Get(key); ok {
 			return value.(*route)
 		}
@@ -156,7 +156,7 @@ func (mi *muxInstance) getRouteFromCache(req *httpprot.Request) *route {
 
 func (mi *muxInstance) putRouteToCache(req *httpprot.Request, r *route) {
 	if mi.cache != nil {
-		key := stringtool.Cat(req.Host(), req.Method(), req.Path())
+		key := stringtool.Cat(req.Host(), " ", req.Method(), " ", req.Path())
 		mi.cache.Add(key, r)
 	}
 }
